@@ -332,6 +332,33 @@ func (w *FrameWorld) check(final bool) {
 		}
 		okReads++
 	}
+	if final {
+		// reach probes (evidence): what kinds of frame and segmentation were actually compared
+		w.K.Stats.ProbeN("frames_compared", okReads)
+		for i := 0; i < okReads; i++ {
+			w.K.Stats.Probe("frame_" + frameKind(w.expected[i]) + "_" + lenClass(len(w.expected[i])))
+		}
+		if len(w.P.Streams) > 0 {
+			sc := w.P.Streams[0]
+			switch {
+			case len(sc.Cuts) == 0:
+				w.K.Stats.Probe("seg_coalesced")
+			case len(sc.Cuts) == 1 && sc.Cuts[0] == 1:
+				w.K.Stats.Probe("seg_byte_at_a_time")
+			default:
+				w.K.Stats.Probe("seg_cut_pattern")
+			}
+			if len(sc.Reads) > 0 {
+				w.K.Stats.Probe("short_reads")
+			}
+		}
+		if w.garbageAt >= 0 {
+			w.K.Stats.Probe("garbage_after_frames")
+		}
+		if w.finSent {
+			w.K.Stats.Probe("stream_closed_by_writer")
+		}
+	}
 	if okReads < complete && !w.withheldReported && len(w.K.StallIntervals()) == 0 {
 		exp := w.expected[okReads]
 		w.withheldReported = true
